@@ -42,6 +42,28 @@ RELATIONAL_OK = {
 }
 
 
+def _substream_counts_bounded(ctx: Ctx, f: Func) -> bool:
+    """in SubstreamsInfo._read: when the Size property is absent, a folder declaring more than one substream raises."""
+    for n in walk(f.node):
+        if isinstance(n, ast.If) and isinstance(n.test, ast.Compare) and any(isinstance(x, ast.Attribute) and x.attr == "SIZE" for x in ast.walk(n.test)) and n.orelse:
+            for st in n.orelse:
+                for x in ast.walk(st):
+                    if isinstance(x, ast.If) and isinstance(x.test, ast.Compare) and isinstance(x.test.ops[0], ast.Gt) and isinstance(x.test.comparators[0], ast.Constant) \
+                            and x.test.comparators[0].value == 1 and "num_unpackstreams_folders" in norm(x.test.left) \
+                            and any(isinstance(r, ast.Raise) for r in x.body):
+                        return True
+    return False
+
+
+CONDITIONAL_OK = {
+    ("archiveinfo:SubstreamsInfo._read", "[False] * num_digests_total"):
+        ("sum of per-folder substream counts: with a Size property every count n consumed n-1 reads, without it a count > 1 raises, so the sum "
+         "is bounded by input length + number of parsed folders", _substream_counts_bounded),
+    ("archiveinfo:SubstreamsInfo._read", "[0] * num_digests_total"):
+        ("same bound as [False] * num_digests_total", _substream_counts_bounded),
+}
+
+
 def read_closure(ctx: Ctx) -> Dict[str, Func]:
     return shared.read_closure(ctx)
 
@@ -357,6 +379,11 @@ def r05_2(ctx: Ctx, closure: Dict[str, Func]) -> None:
             if (fq, key) in RELATIONAL_OK:
                 ctx.ok("R05.2", site, "frozen exception: " + RELATIONAL_OK[(fq, key)])
                 continue
+            if (fq, key) in CONDITIONAL_OK:
+                reason, cond = CONDITIONAL_OK[(fq, key)]
+                if cond(ctx, f):
+                    ctx.ok("R05.2", site, "frozen exception (side condition re-checked on this tree): " + reason)
+                    continue
             # compared against remaining input first?
             ctx.fail("R05.2", f, node,
                      f"{kind} bounded by a count read from the header ({norm(bound)}) with no consuming read per iteration and no comparison "
